@@ -160,4 +160,27 @@ pub fn run(rec: &mut Recorder, w: &mut World, tier: &str, seed: u64) {
         if i < 2 { rec.sample(format!("random {} autosave={} len={}: {}", kind, autosave, len, hist.iter().take(5).map(|o| o.line().replace('\t', " ")).collect::<Vec<_>>().join(" ; "))); }
     }
     rec.count_n("histories:random", n_random);
+    // ---- directed: clear_policy brings store and adapter back in step whatever the enforcer holds in memory - after it a rule
+    //      that was stored before can be added again (an adapter left holding it would veto the call) ----
+    let mut rules3: Vec<(String, String, Vec<String>)> = u.p_rules.iter().take(3).map(|r| ("p".to_string(), "p".to_string(), r.clone())).collect();
+    rules3.extend(u.g_rules.iter().take(2).map(|r| ("g".to_string(), "g".to_string(), r.clone())));
+    for kind in ["memory", "file"] { for variant in 0..3usize { for pi in 0..rules3.len() {
+        rec.begin();
+        new_enforcer(rec, w, &m, kind, &[], "", false);
+        let (sec, pt, r) = rules3[pi].clone();
+        let add = MOp::Add(sec.clone(), pt.clone(), r.clone());
+        let mut descr = vec![];
+        let mut step = |rec: &mut Recorder, w: &mut World, descr: &mut Vec<String>, line: String| -> String { let o = rec.exec(w, &line); descr.push(format!("{} -> {}", line.replace('\t', " "), o)); o };
+        step(rec, w, &mut descr, add.line());
+        match variant {
+            0 => { step(rec, w, &mut descr, "e.auto\tsave\tfalse".into()); step(rec, w, &mut descr, "e.clear".into()); step(rec, w, &mut descr, "e.auto\tsave\ttrue".into()); step(rec, w, &mut descr, "e.clear".into()); }
+            1 => { step(rec, w, &mut descr, "e.clear".into()); step(rec, w, &mut descr, "e.clear".into()); }
+            _ => { step(rec, w, &mut descr, format!("e.loadf\t{}\t{}", enc_list(&sv(&["nobody-at-all"])), enc_list(&sv(&["nobody-at-all"])))); step(rec, w, &mut descr, "e.clear".into()); }
+        }
+        let out = step(rec, w, &mut descr, add.line());
+        let has = rec.exec(w, &format!("e.has\t{}\t{}\t{}", sec, pt, enc_list(&r)));
+        if out != "true" || has != "true" { rec.fail("add-after-clear-refused", format!("{} adapter: {} ; has -> {}", kind, descr.join(" ; "), has)); }
+        rec.count(&format!("directed:add-after-clear:{}", kind));
+        rec.nontrivial_case(&format!("clear|{}|{}|{}", kind, variant, pi));
+    } } }
 }
